@@ -30,7 +30,37 @@ def _pair_len_ap(x, f, ptrdiff):
     a = ap(x)
     if a and a in ptrdiff:
         return ptrdiff[a]
+    # naming convention of the repository: <name> / <name>_length (record fields and locals/parameters)
+    if x.get('k') == 'mem' and x.get('rec') in RECS[0]:
+        fl = {y['n'] for y in RECS[0][x['rec']]}
+        for suf in ('_length', '_len'):
+            if x['f'] + suf in fl:
+                b = ap(x['b'])
+                if b:
+                    return b + ('->' if x.get('arrow') else '.') + x['f'] + suf
+    if x.get('k') == 'var' and a:
+        for suf in ('_length', '_len', 'len'):
+            v = f.get('_vars', {}).get(x['n'] + suf)
+            if v:
+                return v
     return None
+
+
+RECS = [None]
+
+
+def _local_vars(P, f):
+    """name -> access path of the locals and parameters of f"""
+    out = {}
+    for p in f['params']:
+        out[p['n'] if 'n' in p else p.get('name')] = 'v%d' % p['id']
+    for b, ev in P.events(f):
+        t = ev['e']
+        if t.get('k') == 'decl':
+            for d in t['d']:
+                if d.get('n'):
+                    out[d['n']] = 'v%d' % d['id']
+    return out
 
 
 def _ptrdiff_pairs(P, f):
@@ -88,18 +118,22 @@ def _assign(rel, tgt, src):
     return frozenset(out)
 
 
-def run(run, P, only=None, report_declined=False):
+def run(run, P, only=None, units=None):
     run.rule('R-CMP-BOUND')
     nsite = 0
     ndecl = 0
     for f in P.lib_funcs():
         if only and f['name'] not in only:
             continue
+        if units and not f['loc'].split(':')[0].endswith(tuple(units)):
+            continue
         sites = [(b, ev) for b, ev in P.events(f) if ev['e'].get('k') == 'call' and ev['e'].get('fn') in CMP and len(ev['e'].get('a', [])) == 3
                  and const_int(ev['e']['a'][2]) is None]
         if not sites:
             continue
         name = f['name']
+        RECS[0] = P.records
+        f['_vars'] = _local_vars(P, f)
         ptrdiff = _ptrdiff_pairs(P, f)
         judged = []
         lens = set()
